@@ -35,7 +35,7 @@ DIMS = {
     "lin_vec": ["bbox_h", "diag", "vert", "pct", "short", "user"],
     "lin_gt": ["none", "rot", "nonuniform", "skew", "translate", "involutory", "rotscale"],
     "lin_spread": ["pad", "repeat", "reflect"],
-    "lin_stops": ["two", "three", "stopop", "palvar", "pctoff", "shapeop"],
+    "lin_stops": ["two", "three", "stopop", "palvar", "pctoff", "shapeop", "dupoff", "unsorted"],
     "rad_geom": ["c", "focal", "fr", "rpct", "user", "user_focal"],
     "rad_gt": ["none", "rot", "nonuniform", "skew", "translate", "rotscale"],
     "rad_spread": ["pad", "repeat", "reflect"],
@@ -128,6 +128,9 @@ def _lin_stops(name):
         "palvar": [(0, "var(--color3, red)", 1), (1, "blue", 1)],
         "pctoff": [("0%", "red", 1), ("40%", "yellow", 1), ("100%", "blue", 1)],
         "shapeop": [(0, "red", 0.5), (1, "blue", 1)],
+        # two stops at one offset (a hard edge), and offsets that decrease / leave [0,1] (SVG clamps each to [previous, 1])
+        "dupoff": [(0, "red", 1), (0.5, "yellow", 1), (0.5, "blue", 1), (1, "green", 1)],
+        "unsorted": [(0.2, "red", 1), (0.1, "yellow", 1), (0.7, "blue", 1), (1.3, "green", 1)],
     }[name]
 
 
